@@ -157,6 +157,7 @@ func shiftPredicate(p *an.Prog, f *an.Fn, cond ast.Expr) (string, bool) {
 
 func runC14(c *an.Ctx) {
 	c14paramType(c)
+	c14getOnce(c)
 	p := c.P
 	// ---------------------------------------------------------------- C14.shift
 	const canon = "!HasPipeSlot && piped!=nil"
@@ -1090,3 +1091,100 @@ func sameUnderlying(f *an.Fn, value, target ast.Expr) bool {
 	v, ok := an.ObjOf(f.Info(), id).(*types.Var)
 	return ok && v.Pkg() != nil && v.Parent() == v.Pkg().Scope() && an.TypeName(v.Type()) == "reflect.Type"
 }
+
+// c14getOnce (C14.once): Arguments.Get evaluates the argument expression each time it is called ("a pipeline
+// … calls each stage exactly once" holds for the stages written as arguments too).  In every function that
+// receives jet.Arguments, no path asks Get for the same argument twice (IsSet does not evaluate and may be
+// asked freely); the index variable of a loop counts as a new argument after it was changed.
+func c14getOnce(c *an.Ctx) {
+	p := c.P
+	n := 0
+	for _, f := range p.Units() {
+		if f.Pkg != p.Jet || f.Body == nil || f.Sig == nil {
+			continue
+		}
+		takesArgs := false
+		for i := 0; i < f.Sig.Params().Len(); i++ {
+			if an.TypeName(f.Sig.Params().At(i).Type()) == "jet.Arguments" {
+				takesArgs = true
+			}
+		}
+		if !takesArgs {
+			continue
+		}
+		info := f.Info()
+		gets := p.CallsIn(f, "(*jet.Arguments).Get")
+		if len(gets) == 0 {
+			continue
+		}
+		n++
+		var twice token.Pos
+		var what string
+		clear := func(st *an.State, name string) {
+			for k := range st.Regs {
+				if strings.HasPrefix(k, "got:") && identRe14.MatchString(k) {
+					for _, w := range identRe14.FindAllString(strings.TrimPrefix(k, "got:"), -1) {
+						if w == name {
+							st.Set(k, "")
+						}
+					}
+				}
+			}
+		}
+		x := p.NewExplorer(f, an.Hooks{
+			Call: func(x *an.Explorer, call *ast.CallExpr, st *an.State) {
+				if an.CalleeName(info, call) != "(*jet.Arguments).Get" || len(call.Args) != 1 {
+					return
+				}
+				k := "got:" + an.Str(call.Args[0])
+				if st.Get(k) != "" && st.Get("dup") == "" {
+					st.Set("dup", fmt.Sprintf("%d|%s", int(call.Pos()), an.Str(call.Args[0])))
+				}
+				st.Set(k, "1")
+			},
+			PreAssign: func(x *an.Explorer, lhs, rhs ast.Expr, stmt ast.Node, st *an.State) {
+				if id, ok := an.Unparen(lhs).(*ast.Ident); ok {
+					clear(st, id.Name)
+				}
+			},
+			Stmt: func(x *an.Explorer, nd ast.Node, st *an.State) {
+				if inc, ok := nd.(*ast.IncDecStmt); ok {
+					if id, ok := an.Unparen(inc.X).(*ast.Ident); ok {
+						clear(st, id.Name)
+					}
+				}
+				// the key/value of a range loop are (re)defined by a bare identifier node at the loop head
+				if id, ok := nd.(*ast.Ident); ok {
+					clear(st, id.Name)
+				}
+			},
+		})
+		x.Run(nil)
+		c.States += x.Visited
+		// an argument read again only to word an error (a path that ends in a panic) is not held against the
+		// function: the evaluation failed anyway
+		for _, ex := range x.Exits {
+			if ex.Kind != an.ExitReturn || twice.IsValid() {
+				continue
+			}
+			if d := ex.State.Get("dup"); d != "" {
+				parts := strings.SplitN(d, "|", 2)
+				var pos int
+				fmt.Sscanf(parts[0], "%d", &pos)
+				twice, what = token.Pos(pos), parts[1]
+			}
+		}
+		key := f.Name + "/get-once"
+		switch {
+		case x.Undecided != "":
+			c.Undecided("C14.once", key, f.Pos(), "%s", x.Undecided)
+		case twice.IsValid():
+			c.Bad("C14.once", key, twice, nil, "%s asks Arguments.Get(%s) again on a path that already asked for it: Get evaluates the argument expression each time, so an argument with an effect (a call, a channel receive) is evaluated twice", f.Name, what)
+		default:
+			c.OK("C14.once", key, f.Pos(), "no path asks Arguments.Get for the same argument twice")
+		}
+	}
+	c.Expect("C14.once", "functions receiving jet.Arguments that call Get", n, 5)
+}
+
+var identRe14 = regexp.MustCompile(`[A-Za-z_][A-Za-z_0-9]*`)
